@@ -49,6 +49,7 @@ type Object struct {
 	RO    bool
 	Fn    *llread.Func
 	owner int
+	Writes int // number of writes (used for the noalias obligation)
 	// heap bookkeeping
 	AllocSeq int
 }
@@ -73,6 +74,8 @@ type Frame struct {
 	PC     int
 	Allocs []int
 	Call   *llread.Inst // call instruction in the caller awaiting the result
+	// objects passed through two or more noalias parameters, with their write count at entry
+	NoAliasShared map[int]int
 }
 
 type TermKind int
